@@ -172,7 +172,7 @@ def run_cases(ctx, n, big):
     gobin = L.go_build("c05")
     model = L.ocaml_build("c05")
     rc, out, err, dt = L.sh([gobin, "-seed", str(ctx.seed), "-n", str(n), "-big", str(big),
-                             "-pg", str(ctx.scale(40, 150)), "-bigrd", str(ctx.scale(1, 2)), "-pgr", str(ctx.scale(30, 150)), "-cc", str(ctx.scale(4, 12)), "-ww", str(ctx.scale(1, 2)), "-fs", str(ctx.scale(1, 2))], timeout=3000)
+                             "-pg", str(ctx.scale(40, 150)), "-bigrd", str(ctx.scale(1, 2)), "-pgr", str(ctx.scale(30, 150)), "-cc", str(ctx.scale(4, 12)), "-ww", str(ctx.scale(1, 2)), "-fs", str(ctx.scale(1, 2)), "-vi", str(ctx.scale(1, 2))], timeout=3000)
     if rc != 0:
         raise L.Fail("correspondence", "harness cmd/c05 crashed", (out[-1500:] + err[-2500:]))
     cases = L.parse_cases(out)
@@ -227,6 +227,8 @@ def correspondence(ctx):
                      "decreasing / > 2^31 ms apart times), compared byte-exact with the extracted model and decoded by the harness' independent codec; "
                      "concurrent producers: rounds of 2..4 Conns (WriteCompressedMessages, produce v2/v7, every codec, incompressible values below/above 4 KiB) whose scripted peers pause after 8/100/4096/4097 bytes of the produce request "
                      "and then read in small pieces (nested: each producer parked mid-flush while the next ones run; free: all at once), and 3..10 goroutines encoding RecordSet.WriteTo v1/v2 at the same time, under GOMAXPROCS 1, 2, 8, emitted as wc/wp cases; "
+                     "varint boundaries (wp, ww, wl, wc, format 2): record counts 63/64/65, 127/128/129, 8191/8192/8193, timestamp deltas at +-(2^(7k-1)-1, 0, +1) for k=1..5, key/value/header-key/header-value lengths 63/64/65 and 8191/8192/8193, header counts 63/64/65, "
+                     "each through the strict reference decoder (every record occupies exactly its announced length) and byte-exact with the model; "
                      "ww: the kafka.Writer path (one Writer batch per case through a RoundTripper that encodes the typed request with protocol.WriteRequest, produce v2..v8): every ordered pair of nil/empty/non-empty key and value patterns and longer random mixtures, "
                      "what reaches the wire compared null-vs-empty exactly with what was given and byte-exact with the model; frame sweep (wf + in-frame wp): Produce requests v3..v8 and Fetch responses v4..v11 with three partitions whose second record set starts at 65536k-a "
                      "for every a in -3..70 (each back-patched header field straddling, ending on and starting on a page boundary); "
